@@ -105,7 +105,7 @@ def execCli (ts : List String) : Option String :=
       match (← st?) with
       | none => pure "ok 1 error"
       | some (sname, st) =>
-        match cliRun pcgNext Rand.seedFromU64 b st reps with
+        match cliRun pcgNext Rand.seedFromU64 b st reps genScore with
         | .panic _ => pure "ok panic"
         | .error _ => pure "ok 1 error"
         | .written best v => pure ("ok 0 written" ++ dumpJ (encCrystal sname best) ++ " score " ++ fhex v ++ " svg 1")
